@@ -103,6 +103,11 @@ def desc(x, depth=0):
         r = {"t": "model", "cls": tx.__name__, "v": out}
         if hasattr(x, "additional_properties"):
             r["addl"] = {str(k): desc(v, depth + 1) for k, v in x.additional_properties.items()}
+        if depth == 0 or depth == 1:
+            try:
+                r["json"] = jsonable(x.to_dict())
+            except BaseException as ex:
+                r["json_exc"] = f"{type(ex).__name__}: {str(ex)[:100]}"
         return r
     if isinstance(x, str):
         return {"t": "strsub", "cls": tx.__name__, "v": str(x)}
@@ -173,6 +178,8 @@ def build(v):
             return getattr(models_mod(), v["cls"])(v["v"])
         if t == "model":
             return getattr(models_mod(), v["cls"]).from_dict(v["v"])
+        if t == "init":
+            return getattr(models_mod(), v["cls"])(**{k: build(x) for k, x in v.get("kwargs", {}).items()})
         if t == "file":
             return types_mod().File(payload=io.BytesIO(base64.b64decode(v["v"])), file_name=v.get("file_name"), mime_type=v.get("mime_type"))
         if t == "bytes":
@@ -339,7 +346,7 @@ def act_import_all(a):
             src = open(path, encoding="utf-8").read()
             tree = ast.parse(src, path)
         except SyntaxError as ex:
-            syntax.append({"module": name, "msg": f"{ex.msg} (line {ex.lineno})"})
+            syntax.append({"module": name, "msg": f"{ex.msg} (line {ex.lineno})", "text": (ex.text or "").strip()[:200]})
             continue
         except Exception as ex:
             syntax.append({"module": name, "msg": f"{type(ex).__name__}: {ex}"})
